@@ -49,7 +49,12 @@ InBucket(B) ==
       L == B[2]
   IN IF L > MaxLenFor(V) \/ B[3] > Len(V) \/ B[4] > Len(V) \/ B[3] > B[4] \/ (L = 1 /\ B[3] # B[4]) THEN {}
      ELSE {k \in {[i \in 1..L |-> V[s[i]]] : s \in {t \in ND(L, 1, Len(V)) : t[1] = B[3] /\ (L = 1 \/ t[2] = B[4])}} : KnotsValid(k)}
+\* size sweep: long knot vectors (a triple knot at both ends and a double knot in the middle / simple knots only)
+GenSweepM == IF Thorough THEN (8..40) \cup {63, 64, 65, 66, 67, 130} ELSE {9, 12, 16, 17, 18, 24, 32, 33, 34, 40, 65}
+KnotSweep(m) == [i \in 1..m |-> FromInt(2 * (Max(0, Min(i - 3, m - 5)) - (IF i > m \div 2 THEN 1 ELSE 0)) - (m - 6))]
+KnotSimple(m) == [i \in 1..m |-> FromInt(2 * i - m + (IF i % 3 = 0 THEN 1 ELSE 0))]
 Init == \/ \E B \in Buckets : st = [ph |-> -1, b |-> B]
+        \/ \E m \in GenSweepM : \E k \in {KnotSweep(m), KnotSimple(m)} : st = [ph |-> 0, k |-> k]
         \/ st = [ph |-> -1, b |-> <<>>]
 Next == \/ /\ st.ph = -1
            /\ \E k \in (IF st.b = <<>> THEN BadKV ELSE InBucket(st.b)) : st' = [ph |-> 0, k |-> k]
